@@ -30,6 +30,8 @@ INVS = ["InvPrimitive", "InvParity", "InvSectorial", "InvNegM", "InvOrder", "Inv
 #   ["fq", sign, [[p, e], ...]]        factored rational  sign * prod p^e
 #   ["poly", x, [[pow, coef], ...]]    sum coef * x^pow
 #   ["gt", a, b]                       1 if a > b else 0  (the smallest |a - b| seen is kept in .margin)
+#   ["call", name, [[var, term], ..]]  the closed macro `name` (TermEval.macros) with its variables bound
+# Names (of variables and macros) are strings or tuples such as ("q", frame, i, m).
 # Values stay exact (fractions.Fraction) as long as the operations allow it; otherwise
 # double precision (mp=False) or mpmath at `dps` digits (mp=True).  No domain knowledge.
 # --------------------------------------------------------------------------
@@ -44,6 +46,8 @@ class TermEval:
         self.mp = mp
         self.margin = None
         self._fq = {}
+        self.macros = {}
+        self._const = {}          # id(term) -> value, for sub-terms of macro bodies without variables
         if mp:
             import mpmath
             self.m = mpmath.mp.clone()
@@ -79,9 +83,39 @@ class TermEval:
             return complex(v)
         return complex(v)
 
+    # -- macros: closed terms over their parameters; sub-terms without variables are evaluated once
+    @staticmethod
+    def _is_term(t):
+        return isinstance(t, list) and len(t) > 0 and isinstance(t[0], str)
+
+    def _has_var(self, t):
+        if not isinstance(t, list):
+            return False
+        if self._is_term(t) and t[0] in ("var", "call"):
+            return True
+        return any(self._has_var(x) for x in t)
+
+    def _partial(self, t):
+        if not isinstance(t, list):
+            return t
+        if self._is_term(t):
+            if not self._has_var(t):
+                return self.ev(t)
+            return [t[0]] + [self._partial(x) for x in t[1:]]
+        return [self._partial(x) for x in t]
+
+    def define_macro(self, name, body):
+        self.macros[name if isinstance(name, str) else tuple(name)] = self._partial(body)
+
+    def define(self, defs, env):
+        """evaluate an ordered list of definitions [[name, term], ...] into env"""
+        for name, term in defs:
+            env[name if isinstance(name, str) else tuple(name)] = self.ev(term, env)
+        return env
+
     # -- evaluation
     def ev(self, t, env=None):
-        if isinstance(t, (int, float, Fraction)) and not isinstance(t, bool):
+        if not isinstance(t, (list, tuple)):      # a number (literal or pre-evaluated sub-term)
             return t
         op = t[0]
         if op == "q":
@@ -98,7 +132,12 @@ class TermEval:
         if op == "pi":
             return self.m.pi() if self.mp else math.pi
         if op == "var":
-            return env[t[1]]
+            k = t[1]
+            return env[k if isinstance(k, str) else tuple(k)]
+        if op == "call":
+            k = t[1]
+            body = self.macros[k if isinstance(k, str) else tuple(k)]
+            return self.ev(body, {b[0]: self.ev(b[1], env) for b in t[2]})
         if op == "add":
             s = Fraction(0)
             for x in t[1]:
